@@ -96,37 +96,65 @@ theorem txnDrop_abs (s : Sys) (h : Handle) (oids : List V) (hi : SysInv sch s) :
       · rw [(abs_appendOplog f2 _ h "dropDatabase" none none).1, f1, hbase]; rfl
       · rw [f1, hbase]
 
+theorem validate_true_facts {h : Handle} (hv : h.validate true = .ok ()) :
+    h.coll ≠ "" ∧ h.validate false = .ok () := by
+  unfold Handle.validate at hv ⊢
+  split at hv
+  · cases hv
+  · split at hv
+    · cases hv
+    · split at hv
+      · cases hv
+      · rename_i h1 h2 h3
+        refine ⟨?_, ?_⟩
+        · intro e
+          apply h3
+          simp [e]
+        · simp [h1, h2]
+
+theorem hitBy_coll {h : Handle} (hc : h.coll ≠ "") (ns : Handle) : hitBy h ns = (ns == h) := by
+  unfold hitBy
+  have : (h.coll == "") = false := by simpa using hc
+  simp [this]
+
+/-- `Collection.Drop` needs a collection name (validated before the transaction begins) -/
 theorem refines_dropCollection (s : Sys) (h : Handle) (oids : List V) (hi : SysInv sch s) :
     Refines sch s (.dropCollection h) oids := by
   unfold Refines Sys.step
-  have := txnDrop_abs s h oids hi
   simp only [Spec.step, runCall]
-  cases hd : Txn.drop { catalog := s.catalog } h (s.nu oids) with
-  | error e =>
-    rw [hd] at this
-    cases hwr : writable h false with
-    | error e' => rw [hwr] at this; simp only [Except.map] at this ⊢; cases this; rfl
-    | ok _ =>
-      rw [hwr] at this
-      simp only [Except.map] at this
-      split at this <;> cases this
-  | ok r =>
-    rw [hd] at this
-    cases hwr : writable h false with
-    | error e' => rw [hwr] at this; simp [Except.map] at this
-    | ok _ =>
-      rw [hwr] at this
-      simp only [Except.map] at this ⊢
-      have hf : (fun (x : Handle × SColl) => x.1 == h || (h.coll == "" && x.1.db == h.db)) = fun x => hitBy h x.1 := rfl
-      have hf2 : (fun (x : Handle × SColl) => !(x.1 == h || (h.coll == "" && x.1.db == h.db))) = fun x => !hitBy h x.1 := rfl
-      simp only [hf, hf2]
-      split at this
-      · rename_i he
-        simp only [Except.ok.injEq] at this
-        simp [he, this]
-      · rename_i he
-        simp only [Except.ok.injEq] at this
-        simp [he, this]
+  cases hv : h.validate true with
+  | error e => simp only [writable, hv]; rfl
+  | ok u =>
+    have hv' : h.validate true = .ok () := hv
+    obtain ⟨hc, hvf⟩ := validate_true_facts hv'
+    have hww : writable h true = writable h false := by simp only [writable, hv', hvf]
+    rw [hww]
+    have := txnDrop_abs s h oids hi
+    simp only [hitBy_coll hc] at this
+    simp only
+    cases hd : Txn.drop { catalog := s.catalog } h (s.nu oids) with
+    | error e =>
+      rw [hd] at this
+      cases hwr : writable h false with
+      | error e' => rw [hwr] at this; simp only [Except.map] at this ⊢; cases this; rfl
+      | ok _ =>
+        rw [hwr] at this
+        simp only [Except.map] at this
+        split at this <;> cases this
+    | ok r =>
+      rw [hd] at this
+      cases hwr : writable h false with
+      | error e' => rw [hwr] at this; simp [Except.map] at this
+      | ok _ =>
+        rw [hwr] at this
+        simp only [Except.map] at this ⊢
+        split at this
+        · rename_i he
+          simp only [Except.ok.injEq] at this
+          simp [he, this]
+        · rename_i he
+          simp only [Except.ok.injEq] at this
+          simp [he, this]
 
 theorem hitBy_db (name : String) (ns : Handle) : hitBy ⟨name, ""⟩ ns = (ns.db == name) := by
   unfold hitBy
